@@ -29,6 +29,7 @@ import (
 	"io/fs"
 	"os"
 	"path/filepath"
+	"sort"
 	"sync"
 	"time"
 
@@ -3872,7 +3873,18 @@ func (s *ImmuStore) TruncateUptoTx(minTxID uint64) error {
 	// Delete offset from different value logs
 	merr := multierr.NewMultiErr()
 	{
-		for vLogID, offset := range tombstones {
+		// value logs are acquired in ascending id order: concurrent truncations
+		// taking them in (random) map order could deadlock each other
+		vLogIDs := make([]int, 0, len(tombstones))
+		for vLogID := range tombstones {
+			vLogIDs = append(vLogIDs, int(vLogID))
+		}
+		sort.Ints(vLogIDs)
+
+		for _, id := range vLogIDs {
+			vLogID := byte(id)
+			offset := tombstones[vLogID]
+
 			vlog, err := s.fetchVLog(vLogID)
 			if err != nil {
 				merr.Append(err)
